@@ -67,6 +67,18 @@ def runKeyOrigin (mode : String) (b : Bytes) : String :=
 
 def none' {α : Type} (_ : α) : String := ""
 
+/-- `<map>.torecs <ver> <whole>,<keyed>,<unknown>`: the serialize loop on a typed object given field by field -/
+def runTorecs (s : Psbt.Spec) (ver payload : String) : String :=
+  match ver.toNat?, (payload.splitOn ",").map fromHex? with
+  | some v, [some w, some k, some u] => Psbt.runSerTyped s v w k u
+  | _, _ => "bad-op"
+
+/-- `<map>.reserv <ver> <hex>`: parse and serialize at any version number -/
+def runReserV (s : Psbt.Spec) (ver hex : String) : String :=
+  match ver.toNat?, fromHex? hex with
+  | some v, some b => Psbt.runReser s v b
+  | _, _ => "bad-op"
+
 def handle : List String → String
   | "gen" :: "VarInt" :: fn :: args => (Gen.VarInt.dispatch fn args).getD "bad-op"
   | "gen" :: "Wire" :: fn :: args => (Gen.Wire.dispatch fn args).getD "bad-op"
@@ -74,6 +86,11 @@ def handle : List String → String
     match fromHex? hex, maxSize.toNat? with
     | some b, some m => renderVarInt (VarInt.parse b m)
     | _, _ => "bad-op"
+  | ["psbtin.torecs", ver, payload] => runTorecs Psbt.specIn ver payload
+  | ["psbtout.torecs", ver, payload] => runTorecs Psbt.specOut ver payload
+  | ["psbtglobal.torecs", ver, payload] => runTorecs Psbt.specGlobal ver payload
+  | ["psbtin.reserv", ver, hex] => runReserV Psbt.specIn ver hex
+  | ["psbtout.reserv", ver, hex] => runReserV Psbt.specOut ver hex
   | [cls, mode, hex] =>
     match fromHex? hex with
     | none => "bad-op"
